@@ -15,7 +15,7 @@ use std::rc::Rc;
 use serde_json::json;
 
 use super::c06_world::{
-    run_world, Msg, Step, StepOut, WorldCfg, OP_INVOKE_RESP, OP_REPORT, OP_STATUS, OP_WRITE_RESP,
+    run_world, ChunkPlan, Msg, Step, StepOut, WorldCfg, OP_INVOKE_RESP, OP_REPORT, OP_STATUS, OP_WRITE_RESP,
 };
 use super::im_ref::{
     self, acc, class_of, AclRef, AttrItem, Auth, Class, CmdKind, DeviceAcl, EmittedEvent, EvKind, Expect, InvokeItem,
@@ -255,6 +255,53 @@ fn gen_timed(rng: &mut Rng) -> (bool, Option<u16>, u64, &'static str) {
     }
 }
 
+/// Timing of a chunked write of `n` messages: (TimedRequest time-out, delay before message 0,
+/// TimedRequest flag per message, delay before message k, the later message that deviates).
+fn gen_chunk_timing(rng: &mut Rng, n: usize) -> (Option<u16>, u64, Vec<bool>, Vec<u64>, Option<usize>) {
+    let gaps: Vec<u64> = (0..n).map(|_| if rng.chance(1, 3) { 0 } else { rng.below(30) }).collect();
+    // the later message that deviates: the second one half of the time (so that messages may follow it)
+    let dev = if rng.bool() { 1 } else { 1 + rng.usize(n - 1) };
+    match rng.below(100) {
+        // no timed interaction, no flag anywhere
+        0..=23 => (None, 0, vec![false; n], gaps, None),
+        // a live timed interaction, the flag in every message
+        24..=43 => (Some(*rng.pick(&[1000u16, 5000])), rng.below(100), vec![true; n], gaps, None),
+        // no timed interaction, but a later message claims one
+        44..=62 => {
+            let rest = rng.bool();
+            let flags = (0..n).map(|k| k == dev || (rest && k > dev)).collect();
+            (None, 0, flags, gaps, Some(dev))
+        }
+        // a live timed interaction, a later message drops the flag
+        63..=72 => {
+            let flags = (0..n).map(|k| k != dev).collect();
+            (Some(*rng.pick(&[1000u16, 5000])), rng.below(60), flags, gaps, Some(dev))
+        }
+        // the window elapses between two messages
+        73..=85 => {
+            let t = *rng.pick(&[300u16, 800]);
+            let mut gaps = gaps;
+            gaps[dev] = t as u64 + 200 + rng.below(1500);
+            (Some(t), rng.below(40), vec![true; n], gaps, Some(dev))
+        }
+        // the window elapses before the first message
+        86..=89 => {
+            let t = *rng.pick(&[300u16, 800]);
+            (Some(t), t as u64 + 200 + rng.below(1000), vec![true; n], gaps, None)
+        }
+        // the flag everywhere without a timed interaction
+        90..=93 => (None, 0, vec![true; n], gaps, None),
+        // a timed interaction, the flag nowhere
+        94..=96 => (Some(1000), rng.below(60), vec![false; n], gaps, None),
+        // a later message around the end of the window
+        _ => {
+            let mut gaps = gaps;
+            gaps[dev] = 320 + rng.below(160);
+            (Some(400), 0, vec![true; n], gaps, Some(dev))
+        }
+    }
+}
+
 pub fn gen_case(seed: u64, thorough: bool) -> Case {
     let mut rng = Rng::new(seed);
     let sys_root = rng.chance(1, 4);
@@ -396,7 +443,23 @@ pub fn gen_case(seed: u64, thorough: bool) -> Case {
                     (flag, treq, delay) = (false, None, 0);
                 }
                 let big = rng.chance(1, 3);
-                let n = 1 + rng.usize(if big { 4 } else { 1 });
+                // a quarter of the writes travel as 2..4 WriteRequest messages on one exchange
+                let chunked = !group_turn && rng.chance(1, 4);
+                let nchunks = if !chunked {
+                    1
+                } else {
+                    match rng.below(20) {
+                        0..=9 => 2,
+                        10..=16 => 3,
+                        _ => 4,
+                    }
+                };
+                let timing = if chunked { Some(gen_chunk_timing(&mut rng, nchunks)) } else { None };
+                // chunked writes lean towards the administrator (so that the messages hold items that
+                // would act), more so when a later message deviates
+                let deviates = timing.as_ref().map(|t| t.4.is_some()).unwrap_or(false);
+                let sess = if chunked && rng.chance(if deviates { 3 } else { 2 }, 5) { 0 } else { sess };
+                let n = if chunked { nchunks + rng.usize(3) } else { 1 + rng.usize(if big { 4 } else { 1 }) };
                 let mut items: Vec<WriteItem> = Vec::new();
                 for _ in 0..n {
                     if !items.is_empty() && rng.chance(1, 6) {
@@ -436,8 +499,58 @@ pub fn gen_case(seed: u64, thorough: bool) -> Case {
                     }
                     items.push(w);
                 }
-                let via_client = flag == treq.is_some() && delay < 150 && rng.chance(1, 4) && !group_turn;
-                steps.push(Step::Write { sess, items, timed_flag: flag, timed_req: treq, delay_ms: if via_client { 0 } else { delay }, via_client });
+                let mut chunks = None;
+                if let Some((t, d, flags, gaps, dev)) = timing {
+                    (flag, treq, delay) = (flags[0], t, d);
+                    let mut sizes = vec![1usize; nchunks];
+                    for _ in nchunks..items.len() {
+                        sizes[rng.usize(nchunks)] += 1;
+                    }
+                    let writable = |want: &dyn Fn(&im_ref::AttrSpec) -> bool| -> Vec<(u16, u32, im_ref::AttrSpec)> {
+                        let mut v = Vec::new();
+                        for e in &cur.endpoints {
+                            for c in e.clusters.iter().filter(|c| !c.system) {
+                                for a in c.attrs.iter().filter(|a| a.access & acc::WRITE != 0 && want(a)) {
+                                    v.push((e.id, c.id, a.clone()));
+                                }
+                            }
+                        }
+                        v
+                    };
+                    let lists = writable(&|a| a.quality & im_ref::qual::ARRAY != 0);
+                    if !lists.is_empty() && rng.chance(1, 3) {
+                        // a list written across the messages: replace-all first, appended items later
+                        let (e, c, a) = lists[rng.usize(lists.len())].clone();
+                        let mut p = PathReq::new(Some(e), Some(c), Some(a.id));
+                        items.clear();
+                        items.push(WriteItem { path: p.clone(), data_ver: None, data: write_value(&mut rng, Some(&a.shape)) });
+                        p.list_index = ListIdx::Null;
+                        sizes = vec![1usize; nchunks];
+                        for k in 1..nchunks {
+                            sizes[k] = 1 + rng.usize(2);
+                            for _ in 0..sizes[k] {
+                                items.push(WriteItem { path: p.clone(), data_ver: None, data: Val::U(rng.below(1000)) });
+                            }
+                        }
+                        if rng.chance(1, 3) {
+                            // ... next to something else in the first message
+                            let q = gen_path(&mut rng, &cur, Leaf::Attr, [12, 2, 2], 7, true);
+                            items.insert(0, WriteItem { path: q, data_ver: None, data: Val::U(rng.below(1 << 16)) });
+                            sizes[0] += 1;
+                        }
+                    }
+                    let timed_only = writable(&|a| a.access & acc::TIMED_ONLY != 0);
+                    if !timed_only.is_empty() && rng.chance(3, 5) {
+                        // a timed-only attribute in the message that deviates (else in any later one)
+                        let k = dev.unwrap_or(1 + rng.usize(nchunks - 1));
+                        let at: usize = sizes[..k].iter().sum();
+                        let (e, c, a) = timed_only[rng.usize(timed_only.len())].clone();
+                        items[at] = WriteItem { path: PathReq::new(Some(e), Some(c), Some(a.id)), data_ver: None, data: write_value(&mut rng, Some(&a.shape)) };
+                    }
+                    chunks = Some(ChunkPlan { sizes, flags, gaps_ms: gaps, continue_after_refusal: rng.chance(1, 3), explicit_last: rng.bool() });
+                }
+                let via_client = !chunked && flag == treq.is_some() && delay < 150 && rng.chance(1, 4) && !group_turn;
+                steps.push(Step::Write { sess, items, timed_flag: flag, timed_req: treq, delay_ms: if via_client { 0 } else { delay }, via_client, chunks });
             }
             70..=94 => {
                 let (mut flag, mut treq, mut delay, _) = gen_timed(&mut rng);
@@ -993,6 +1106,9 @@ fn judge_act(j: &mut J<'_>, si: usize, step: &Step, so: &StepOut) {
         Step::Invoke { sess, timed_flag, timed_req, delay_ms, .. } => (*sess, *timed_flag, *timed_req, *delay_ms, false),
         _ => return,
     };
+    if matches!(step, Step::Write { chunks: Some(_), .. }) {
+        return judge_chunked_write(j, si, step, so);
+    }
     let r = j.cfg.requesters[sess].clone();
     let snap = so.snap.as_ref().unwrap();
     let node = snap.spec.clone();
@@ -1208,86 +1324,7 @@ fn judge_act(j: &mut J<'_>, si: usize, step: &Step, so: &StepOut) {
                 }
             }
         };
-        let mut used = vec![false; got.len()];
-        let mut exp_calls: Vec<(u16, u32, u32, u64, ListIdx)> = Vec::new();
-        let mut any_open = false;
-        for w in items {
-            j.rep.count(if w.path.is_wildcard() { "path:wildcard" } else { "path:concrete" });
-            let dv = |e: u16, c: u32| dvmap.get(&(e, c)).copied().unwrap_or_else(|| snap.dataver(e, c));
-            let actx = im_ref::ActCtx { node: &node, acl: &j.acl, requester: &r, timed_live, current_dataver: &dv };
-            let pe: PathExpect = im_ref::expand_write(&actx, core::slice::from_ref(w)).remove(0);
-            if let Some(o) = pe.open {
-                j.rep.note(&format!("open-outcome:{}", o));
-                any_open = true;
-                continue;
-            }
-            for it in &pe.items {
-                match it {
-                    Expect::Done { ep, cl, leaf } => {
-                        exp_calls.push((*ep, *cl, *leaf, im_ref::val_hash(&w.data), w.path.list_index));
-                        let cur = dvmap.get(&(*ep, *cl)).copied().unwrap_or_else(|| snap.dataver(*ep, *cl));
-                        dvmap.insert((*ep, *cl), cur.wrapping_add(1));
-                        let hit = got.iter().enumerate().position(|(k, g)| {
-                            !used[k] && g.ep == Some(*ep) && g.cl == Some(*cl) && g.attr == Some(*leaf) && matches!(g.kind, ItemKind::Status { code: 0, .. })
-                        });
-                        match hit {
-                            Some(k) => {
-                                used[k] = true;
-                                j.rep.count("granted:write");
-                                if node.attr(*ep, *cl, *leaf).map(|a| a.access & acc::TIMED_ONLY != 0).unwrap_or(false) {
-                                    j.rep.count("granted:timed-only-element-acted-inside-live-window");
-                                }
-                                j.outcome.insert("ok".into());
-                            }
-                            None => {
-                                let st: Vec<String> = got.iter().filter(|g| g.ep == Some(*ep) && g.cl == Some(*cl) && g.attr == Some(*leaf)).map(|g| format!("{:?}", g.kind)).collect();
-                                j.viol("write-status", "permitted-write-not-acknowledged", format!("{:#x}/{:#x}/{:#x} is writable and permitted (timed_live={}) but got {:?}; {}", ep, cl, leaf, timed_live, st, ctx));
-                            }
-                        }
-                    }
-                    Expect::Status { path, allowed, primary, .. } => {
-                        let hit = got.iter().enumerate().position(|(k, g)| {
-                            let ItemKind::Status { code, .. } = g.kind else { return false };
-                            !used[k] && g.ep == path.ep && g.cl == path.cl && g.attr == path.leaf && allowed.contains(&class_of(code))
-                        });
-                        match hit {
-                            Some(k) => {
-                                used[k] = true;
-                                let ItemKind::Status { code, .. } = got[k].kind else { unreachable!() };
-                                let cl = class_of(code);
-                                j.rep.count(&format!("denied:write/{:?}", cl));
-                                j.outcome.insert(format!("st:{:?}", cl));
-                                if cl != *primary {
-                                    j.rep.note(&format!("write-status-class-{:?}-where-rules-name-{:?}-first", cl, primary));
-                                }
-                            }
-                            None => {
-                                let st: Vec<String> = got.iter().filter(|g| g.ep == path.ep && g.cl == path.cl && g.attr == path.leaf).map(|g| format!("{:?}", g.kind)).collect();
-                                j.viol("write-status", &format!("expected-{:?}", primary), format!("write to {} must be refused with one of {:?}; statuses for the path: {:?}; {}", path.show(), allowed, st, ctx));
-                            }
-                        }
-                    }
-                    _ => {}
-                }
-            }
-        }
-        if !any_open {
-            for (k, g) in got.iter().enumerate() {
-                if !used[k] {
-                    j.viol("write-status", "unexpected-status", format!("status {:?} not expected; {}", g, ctx));
-                }
-            }
-            let (missing, extra) = im_ref::multiset_diff(
-                &exp_calls.iter().map(|c| (c.0, c.1, c.2, c.3)).collect::<Vec<_>>(),
-                &ok_calls.iter().map(|c| (c.0, c.1, c.2, c.3)).collect::<Vec<_>>(),
-            );
-            for m in missing {
-                j.viol("effect", "permitted-write-not-applied", format!("no successful handler write of {:#x}/{:#x}/{:#x} with the requested value; {}", m.0, m.1, m.2, ctx));
-            }
-            for m in extra {
-                j.viol("effect", "write-applied-for-refused-or-absent-path", format!("handler write of {:#x}/{:#x}/{:#x} (value hash {:x}) without a corresponding permitted request item; {}", m.0, m.1, m.2, m.3, ctx));
-            }
-        }
+        judge_write_items(j, &node, snap, &r, &ctx, items, &got, &ok_calls, timed_live, &mut dvmap);
     } else {
         let Step::Invoke { items, .. } = step else { unreachable!() };
         let resp = if let Some(g) = &so.client_invoke {
@@ -1401,6 +1438,512 @@ fn judge_act(j: &mut J<'_>, si: usize, step: &Step, so: &StepOut) {
     }
 }
 
+/// Does the timed window cover every message of a chunked write, or only the arrival of the
+/// first one? The Matter rules let the TimedRequest time-out bound "the following action";
+/// whether the later WriteRequest messages of the same interaction are bound by it too is not
+/// settled by the statement. With `false` a later chunk that is sent after the window has
+/// elapsed is left open between "refused as a whole with a TIMEOUT status (and no effect)" and
+/// "processed inside the timed interaction"; with `true` only the first is accepted.
+pub const TIMED_WINDOW_COVERS_EVERY_CHUNK: bool = false;
+
+enum ChunkExp {
+    /// The message must be refused as a whole: one bare status of these classes, no handler call.
+    Refuse(Vec<Class>, &'static str),
+    /// The message must be answered by a WriteResponse; items judged under this timed state.
+    Process(bool),
+    /// Open: refused as a whole with TIMEOUT, or processed inside the timed interaction.
+    TimeoutOrProcess(&'static str),
+    /// Open: a message sent after the interaction was refused.
+    AfterRefusal,
+}
+
+/// Chunked write: the items travel in several WriteRequest messages on one exchange (all but the
+/// last with MoreChunkedMessages=true), each answered on its own. Every message is judged like
+/// a single-message write under the interaction's REAL timed state: its TimedRequest flag must
+/// agree with the existence of a timed interaction (else TIMED_REQUEST_MISMATCH for the whole
+/// message and no effect), a first message after the window's end is refused with TIMEOUT, and
+/// a timed-only attribute is written only by a message that carries the flag inside a timed
+/// interaction that really exists.
+fn judge_chunked_write(j: &mut J<'_>, si: usize, step: &Step, so: &StepOut) {
+    let Step::Write { sess, items, timed_req, chunks: Some(plan), .. } = step else { return };
+    let r = j.cfg.requesters[*sess].clone();
+    let snap = so.snap.as_ref().unwrap();
+    let node = snap.spec.clone();
+    let n = plan.sizes.len();
+    let mut ctx = describe(j, si, step, &r);
+    j.rep.count(&format!("requester:{}", r.kind));
+    j.rep.count("op:write");
+    j.rep.count(if timed_req.is_some() || plan.flags.iter().any(|f| *f) { "timed" } else { "untimed" });
+
+    // --- which calls belong to which message (message k+1 leaves after the answer to k arrived)
+    let calls_of = |k: usize| -> Vec<&probe_dm::Call> {
+        let lo = if k == 0 { 0 } else { so.chunk_io.get(k).map(|c| c.t_send).unwrap_or(u64::MAX) };
+        let hi = so.chunk_io.get(k + 1).map(|c| c.t_send).unwrap_or(u64::MAX);
+        so.calls.iter().filter(|c| c.t >= lo && c.t < hi).collect()
+    };
+    let elapsed_ms = |k: usize| -> Option<u64> {
+        match (so.timed_t, so.chunk_io.get(k)) {
+            (Some(t0), Some(io)) => Some(io.t_send.saturating_sub(t0) / 1000),
+            _ => None,
+        }
+    };
+    let answer = |io: &super::c06_world::ChunkIo| -> String {
+        match (&io.msg, &io.err) {
+            (Some(m), _) if m.opcode == OP_STATUS => format!(
+                "StatusResponse({})",
+                Tlv::parse_strict(&m.payload).ok().and_then(|t| im_ref::decode_status_resp(&t).ok()).map(|c| format!("{:#x}", c)).unwrap_or("?".into())
+            ),
+            (Some(m), _) if m.opcode == OP_WRITE_RESP => format!(
+                "WriteResponse{:?}",
+                Tlv::parse_strict(&m.payload)
+                    .and_then(|t| im_ref::decode_write_resp(&t))
+                    .map(|v| v.iter().map(|g| format!("{:#x}/{:#x}/{:#x}:{}", g.ep.unwrap_or(0xffff), g.cl.unwrap_or(0), g.attr.unwrap_or(0), match g.kind { ItemKind::Status { code, .. } => format!("{:#x}", code), _ => "data".into() })).collect::<Vec<_>>())
+                    .unwrap_or_default()
+            ),
+            (Some(m), _) => format!("opcode {}", m.opcode),
+            (None, e) => format!("no answer ({:?})", e),
+        }
+    };
+    {
+        let mut trace: Vec<String> = Vec::new();
+        let mut start = 0usize;
+        for k in 0..n {
+            let its: Vec<String> = items[start..(start + plan.sizes[k]).min(items.len())].iter().map(|w| w.path.show()).collect();
+            start += plan.sizes[k];
+            let Some(io) = so.chunk_io.get(k) else {
+                trace.push(format!("#{} not sent", k));
+                continue;
+            };
+            trace.push(format!(
+                "#{} TimedRequest={} MoreChunkedMessages={} items {:?} sent {} -> {}; handler writes {:?}",
+                k,
+                plan.flags[k],
+                k + 1 < n,
+                its,
+                elapsed_ms(k).map(|e| format!("{} ms after the TimedRequest was acknowledged", e)).unwrap_or("(no TimedRequest)".into()),
+                answer(io),
+                calls_of(k).iter().filter(|c| c.op == CallOp::Write).map(|c| format!("{:#x}/{:#x}/{:#x}:{}", c.ep, c.cl, c.leaf, if c.result.is_ok() { "ok" } else { "err" })).collect::<Vec<_>>()
+            ));
+        }
+        ctx = format!("chunked write, TimedRequest message: {:?}, messages: [{}]; {}", timed_req.map(|t| format!("{} ms", t)), trace.join(" | "), ctx);
+    }
+
+    if std::env::var("RSMV_DEBUG_CHUNKED").is_ok() {
+        eprintln!("CHUNKED {} {}", j.replay, ctx);
+    }
+
+    // --- safety half over the whole step: only writes, only inside the permitted set
+    let permitted: BTreeSet<(u16, u32, u32)> = im_ref::permitted_set(&node, &j.acl, &r, Op::Write).into_iter().collect();
+    for c in &so.calls {
+        if c.op == CallOp::Read {
+            j.rep.note("read-call-during-write-or-invoke");
+            continue;
+        }
+        if c.op != CallOp::Write {
+            j.viol("call-log", "wrong-operation", format!("{:?} call during a write: {:?}; {}", c.op, c, ctx));
+            continue;
+        }
+        j.rep.count("handler_write_calls");
+        if !permitted.contains(&(c.ep, c.cl, c.leaf)) {
+            j.viol(
+                "call-log",
+                "write-call-outside-permitted",
+                format!("the handler was asked to write {:#x}/{:#x}/{:#x}, which is absent or not permitted for the requester; {}", c.ep, c.cl, c.leaf, ctx),
+            );
+        }
+    }
+
+    if let Some(ts) = so.timed_status {
+        if ts != 0 {
+            j.rep.note(&format!("timed-request-refused:{:#x}", ts));
+            return;
+        }
+    }
+    if so.chunk_io.is_empty() {
+        j.rep.note(&format!("write-no-complete-answer:{}", so.err.clone().unwrap_or_default()));
+        j.outcome.insert("no-answer".into());
+        return;
+    }
+    j.rep.count("chunked_writes");
+    let timed_ok = timed_req.is_some() && so.timed_status == Some(0);
+    let tmo = timed_req.unwrap_or(0) as u64;
+
+    let mut dvmap: std::collections::HashMap<(u16, u32), u32> = std::collections::HashMap::new();
+    let mut refused_before = false;
+    let mut all_acked = true;
+    let mut any_open = false;
+    let mut exp_seq: Vec<(u16, u32, u32, u64, ListIdx)> = Vec::new();
+    let mut start = 0usize;
+    for k in 0..n {
+        let chunk_items = &items[start..(start + plan.sizes[k]).min(items.len())];
+        start += plan.sizes[k];
+        let Some(io) = so.chunk_io.get(k) else { break };
+        let flag = plan.flags[k];
+        let kcls = if k == 0 { "first-message" } else { "later-message" };
+        let tcls = match (timed_ok, flag) {
+            (false, true) => "flag-set-without-timed-request",
+            (true, false) => "flag-clear-inside-timed-interaction",
+            (true, true) => "timed",
+            (false, false) => "untimed",
+        };
+        let el = elapsed_ms(k).unwrap_or(0);
+        let live_sure = timed_ok && el + 100 <= tmo;
+        let expired_sure = timed_ok && el > tmo + 100;
+        let mismatch = flag != timed_ok;
+
+        let exp = if refused_before {
+            ChunkExp::AfterRefusal
+        } else if mismatch {
+            let mut allowed = vec![Class::TimedMismatch];
+            if timed_ok && !live_sure {
+                allowed.push(Class::Timeout);
+            }
+            ChunkExp::Refuse(allowed, "timed-mismatch")
+        } else if !timed_ok {
+            ChunkExp::Process(false)
+        } else if live_sure {
+            ChunkExp::Process(true)
+        } else if expired_sure && (k == 0 || TIMED_WINDOW_COVERS_EVERY_CHUNK) {
+            ChunkExp::Refuse(vec![Class::Timeout], "timed-window-expired")
+        } else if expired_sure {
+            ChunkExp::TimeoutOrProcess("later-message-after-the-timed-window-elapsed")
+        } else {
+            ChunkExp::TimeoutOrProcess("borderline-timed-window")
+        };
+
+        // --- what this message is about (counted once it was really sent and answered)
+        if io.msg.is_some() {
+            j.rep.count("chunked_write_messages");
+            if k > 0 && !refused_before {
+                if flag != plan.flags[0] {
+                    j.rep.count("chunked_write_later_chunk_timed_flag_deviates");
+                }
+                if !timed_ok && flag {
+                    j.rep.count("chunked_write_without_timed_request_but_flag_set");
+                }
+                if timed_ok && !flag {
+                    j.rep.count("chunked_write_flag_clear_in_later_chunk_of_timed_interaction");
+                }
+                if timed_ok && flag && expired_sure {
+                    j.rep.count("chunked_write_window_expired_between_chunks");
+                }
+            }
+            if matches!(exp, ChunkExp::Refuse(..)) {
+                // would any item have acted had the message been taken at its word?
+                let dv = |e: u16, c: u32| dvmap.get(&(e, c)).copied().unwrap_or_else(|| snap.dataver(e, c));
+                let actx = im_ref::ActCtx { node: &node, acl: &j.acl, requester: &r, timed_live: flag, current_dataver: &dv };
+                let mut acting = false;
+                let mut acting_timed_only = false;
+                for pe in im_ref::expand_write(&actx, chunk_items) {
+                    for it in pe.items {
+                        if let Expect::Done { ep, cl, leaf } = it {
+                            acting = true;
+                            acting_timed_only |= node.attr(ep, cl, leaf).map(|a| a.access & acc::TIMED_ONLY != 0).unwrap_or(false);
+                        }
+                    }
+                }
+                if acting {
+                    j.rep.count(if k == 0 { "chunked_write_refused_first_chunk_holds_permitted_item" } else { "chunked_write_refused_later_chunk_holds_permitted_item" });
+                }
+                if acting_timed_only && k > 0 {
+                    j.rep.count("chunked_write_refused_later_chunk_holds_permitted_timed_only_item");
+                }
+            }
+        }
+
+        // --- safety half per message
+        let calls: Vec<&probe_dm::Call> = calls_of(k).into_iter().filter(|c| c.op == CallOp::Write).collect();
+        let timed_live_for_calls = match &exp {
+            ChunkExp::Process(tl) => *tl,
+            ChunkExp::TimeoutOrProcess(_) => true,
+            ChunkExp::Refuse(..) | ChunkExp::AfterRefusal => false,
+        };
+        for c in &calls {
+            if let ChunkExp::Refuse(_, why) = &exp {
+                j.viol(
+                    "timed",
+                    &format!("chunked-write-acted-despite-{}/{}/{}", why, kcls, tcls),
+                    format!("handler write {:#x}/{:#x}/{:#x} while message #{} must be refused as a whole; {}", c.ep, c.cl, c.leaf, k, ctx),
+                );
+            }
+            let info = im_ref::element_info(&node, &j.acl, &r, Op::Write, c.ep, c.cl, c.leaf);
+            if info.exists && info.timed_only && !timed_live_for_calls {
+                j.viol(
+                    "timed",
+                    &format!("timed-only-write-without-live-timed-window/chunked/{}/{}", kcls, if refused_before { "after-refused-message" } else { tcls }),
+                    format!(
+                        "{:#x}/{:#x}/{:#x} is timed-only (access {:#x}) but was written by message #{} outside a live timed interaction (timed interaction exists: {}, message flag: {}, interaction already refused: {}); {}",
+                        c.ep, c.cl, c.leaf, info.access, k, timed_ok, flag, refused_before, ctx
+                    ),
+                );
+            }
+        }
+        let ok_calls: Vec<(u16, u32, u32, u64, ListIdx)> = calls.iter().filter(|c| c.result.is_ok()).map(|c| (c.ep, c.cl, c.leaf, c.data_hash, c.list_index)).collect();
+
+        // --- the answer
+        let Some(m) = &io.msg else {
+            if matches!(exp, ChunkExp::AfterRefusal) {
+                // the interaction was over: silence is one of the open outcomes
+                j.rep.count("chunked_write_messages_sent_after_refusal");
+                j.rep.note(&format!("open-outcome:message-after-refused-message:no-answer({})", io.err.clone().unwrap_or_default()));
+                j.outcome.insert("after-refusal:no-answer".into());
+            } else {
+                j.rep.note(&format!("write-no-complete-answer:{}", io.err.clone().unwrap_or_default()));
+                j.outcome.insert("no-answer".into());
+            }
+            return;
+        };
+        let top: Option<u16> = if m.opcode == OP_STATUS { Tlv::parse_strict(&m.payload).ok().and_then(|t| im_ref::decode_status_resp(&t).ok()) } else { None };
+        let got: Option<Vec<AttrItem>> = if m.opcode == OP_WRITE_RESP {
+            match Tlv::parse_strict(&m.payload).and_then(|t| im_ref::decode_write_resp(&t)) {
+                Ok(g) => Some(g),
+                Err(e) => {
+                    j.viol("decode", "malformed-write-response", format!("message #{}: {}; {}", k, e, ctx));
+                    return;
+                }
+            }
+        } else {
+            None
+        };
+        if top.is_none() && got.is_none() {
+            if matches!(exp, ChunkExp::AfterRefusal) {
+                j.rep.note(&format!("open-outcome:message-after-refused-message-answered-with-opcode-{}", m.opcode));
+                continue;
+            }
+            j.viol("decode", "write-unexpected-opcode", format!("message #{} answered with opcode {}; {}", k, m.opcode, ctx));
+            return;
+        }
+        if got.is_none() {
+            all_acked = false;
+        }
+        match exp {
+            ChunkExp::AfterRefusal => {
+                any_open = true;
+                j.rep.count("chunked_write_messages_sent_after_refusal");
+                j.rep.note(&format!(
+                    "open-outcome:message-after-refused-message:{}",
+                    match top {
+                        Some(c) => format!("status-{:?}", class_of(c)),
+                        None => "write-response".into(),
+                    }
+                ));
+                j.outcome.insert("after-refusal".into());
+            }
+            ChunkExp::Refuse(allowed, why) => match top {
+                Some(code) if allowed.contains(&class_of(code)) => {
+                    j.rep.count(&format!("denied:write/{:?}", class_of(code)));
+                    j.rep.count(&format!("denied:chunked-write/{}/{:?}", kcls, class_of(code)));
+                    j.outcome.insert(format!("c{}:top:{:?}", k.min(1), class_of(code)));
+                    refused_before = true;
+                }
+                other => {
+                    j.viol(
+                        "timed",
+                        &format!("chunked-write-expected-{:?}/{}/{}", allowed[0], kcls, tcls),
+                        format!(
+                            "message #{} ({}: TimedRequest flag {}, timed interaction exists: {}) must be refused as a whole with one of {:?}, got {}; {}",
+                            k,
+                            why,
+                            flag,
+                            timed_ok,
+                            allowed,
+                            match other {
+                                Some(c) => format!("status {:#x}", c),
+                                None => "a WriteResponse".into(),
+                            },
+                            ctx
+                        ),
+                    );
+                    return;
+                }
+            },
+            ChunkExp::Process(tl) => match (top, got) {
+                (Some(code), _) => {
+                    j.outcome.insert(format!("c{}:top:{:?}", k.min(1), class_of(code)));
+                    j.viol(
+                        "write-top-status",
+                        &format!("chunked/{}/{:?}", kcls, class_of(code)),
+                        format!("message #{} of a valid chunked write ({} item(s), {}) was answered with a bare status {:#x}; {}", k, chunk_items.len(), tcls, code, ctx),
+                    );
+                    return;
+                }
+                (None, Some(got)) => {
+                    let (e, o) = judge_write_items(j, &node, snap, &r, &ctx, chunk_items, &got, &ok_calls, tl, &mut dvmap);
+                    j.rep.count_n("granted:chunked-write", e.len() as u64);
+                    exp_seq.extend(e);
+                    any_open |= o;
+                }
+                _ => unreachable!(),
+            },
+            ChunkExp::TimeoutOrProcess(what) => match (top, got) {
+                (Some(code), _) if class_of(code) == Class::Timeout => {
+                    j.rep.note(&format!("open-outcome:{}:refused-with-timeout", what));
+                    j.rep.count(&format!("denied:chunked-write/{}/Timeout", kcls));
+                    j.outcome.insert(format!("c{}:top:Timeout", k.min(1)));
+                    refused_before = true;
+                    if !calls.is_empty() {
+                        j.viol(
+                            "timed",
+                            &format!("chunked-write-acted-although-answered-with-timeout/{}", kcls),
+                            format!("message #{} was answered with TIMEOUT for the whole message but the handler was asked to write {:?}; {}", k, ok_calls, ctx),
+                        );
+                    }
+                }
+                (Some(code), _) => {
+                    j.viol(
+                        "write-top-status",
+                        &format!("chunked/{}/{:?}", kcls, class_of(code)),
+                        format!("message #{} ({}) may be refused with TIMEOUT or be processed, but was answered with a bare status {:#x}; {}", k, what, code, ctx),
+                    );
+                    return;
+                }
+                (None, Some(got)) => {
+                    j.rep.note(&format!("open-outcome:{}:processed", what));
+                    let (e, o) = judge_write_items(j, &node, snap, &r, &ctx, chunk_items, &got, &ok_calls, true, &mut dvmap);
+                    exp_seq.extend(e);
+                    any_open |= o;
+                }
+                _ => unreachable!(),
+            },
+        }
+    }
+    if all_acked && so.chunk_io.len() == n {
+        j.rep.count("chunked_write_all_messages_acknowledged");
+    }
+
+    // --- lists written across messages (replace-all first, appended items later): the final
+    // value is the fold of the applied writes in the order of the request
+    if !any_open {
+        let mut keys: Vec<(u16, u32, u32)> = exp_seq.iter().filter(|e| e.4 == ListIdx::Null).map(|e| (e.0, e.1, e.2)).collect();
+        keys.sort();
+        keys.dedup();
+        for key in keys {
+            let want: Vec<(u64, ListIdx)> = exp_seq.iter().filter(|e| (e.0, e.1, e.2) == key).map(|e| (e.3, e.4)).collect();
+            let have: Vec<(u64, ListIdx)> = so
+                .calls
+                .iter()
+                .filter(|c| c.op == CallOp::Write && c.result.is_ok() && (c.ep, c.cl, c.leaf) == key)
+                .map(|c| (c.data_hash, c.list_index))
+                .collect();
+            j.rep.count("chunked_list_write_final_value_checked");
+            if want.iter().any(|w| w.1 == ListIdx::Absent) {
+                j.rep.count("chunked_list_write_replace_then_append");
+            }
+            if want != have {
+                j.viol(
+                    "list-write",
+                    "chunked-list-final-value-differs",
+                    format!(
+                        "list attribute {:#x}/{:#x}/{:#x}: the applied writes (value hash, list index) {:x?} differ in content or order from the requested ones {:x?}, so the final list value differs; {}",
+                        key.0, key.1, key.2, have, want, ctx
+                    ),
+                );
+            }
+        }
+    }
+}
+
+/// Per-item half of the write oracle for one WriteRequest message: every item gets the status
+/// class the reference names under `timed_live`, permitted writes are acknowledged and applied
+/// exactly once, nothing else is applied. `dvmap` carries the cluster data versions forward
+/// (one bump per applied write). Returns the expected successful handler writes in item order
+/// and whether an item's outcome was left open.
+#[allow(clippy::too_many_arguments)]
+fn judge_write_items(
+    j: &mut J<'_>,
+    node: &Rc<NodeSpec>,
+    snap: &probe_dm::ProbeSnap,
+    r: &Requester,
+    ctx: &str,
+    items: &[WriteItem],
+    got: &[AttrItem],
+    ok_calls: &[(u16, u32, u32, u64, ListIdx)],
+    timed_live: bool,
+    dvmap: &mut std::collections::HashMap<(u16, u32), u32>,
+) -> (Vec<(u16, u32, u32, u64, ListIdx)>, bool) {
+    let mut used = vec![false; got.len()];
+    let mut exp_calls: Vec<(u16, u32, u32, u64, ListIdx)> = Vec::new();
+    let mut any_open = false;
+    for w in items {
+        j.rep.count(if w.path.is_wildcard() { "path:wildcard" } else { "path:concrete" });
+        let dv = |e: u16, c: u32| dvmap.get(&(e, c)).copied().unwrap_or_else(|| snap.dataver(e, c));
+        let actx = im_ref::ActCtx { node: &node, acl: &j.acl, requester: &r, timed_live, current_dataver: &dv };
+        let pe: PathExpect = im_ref::expand_write(&actx, core::slice::from_ref(w)).remove(0);
+        if let Some(o) = pe.open {
+            j.rep.note(&format!("open-outcome:{}", o));
+            any_open = true;
+            continue;
+        }
+        for it in &pe.items {
+            match it {
+                Expect::Done { ep, cl, leaf } => {
+                    exp_calls.push((*ep, *cl, *leaf, im_ref::val_hash(&w.data), w.path.list_index));
+                    let cur = dvmap.get(&(*ep, *cl)).copied().unwrap_or_else(|| snap.dataver(*ep, *cl));
+                    dvmap.insert((*ep, *cl), cur.wrapping_add(1));
+                    let hit = got.iter().enumerate().position(|(k, g)| {
+                        !used[k] && g.ep == Some(*ep) && g.cl == Some(*cl) && g.attr == Some(*leaf) && matches!(g.kind, ItemKind::Status { code: 0, .. })
+                    });
+                    match hit {
+                        Some(k) => {
+                            used[k] = true;
+                            j.rep.count("granted:write");
+                            if node.attr(*ep, *cl, *leaf).map(|a| a.access & acc::TIMED_ONLY != 0).unwrap_or(false) {
+                                j.rep.count("granted:timed-only-element-acted-inside-live-window");
+                            }
+                            j.outcome.insert("ok".into());
+                        }
+                        None => {
+                            let st: Vec<String> = got.iter().filter(|g| g.ep == Some(*ep) && g.cl == Some(*cl) && g.attr == Some(*leaf)).map(|g| format!("{:?}", g.kind)).collect();
+                            j.viol("write-status", "permitted-write-not-acknowledged", format!("{:#x}/{:#x}/{:#x} is writable and permitted (timed_live={}) but got {:?}; {}", ep, cl, leaf, timed_live, st, ctx));
+                        }
+                    }
+                }
+                Expect::Status { path, allowed, primary, .. } => {
+                    let hit = got.iter().enumerate().position(|(k, g)| {
+                        let ItemKind::Status { code, .. } = g.kind else { return false };
+                        !used[k] && g.ep == path.ep && g.cl == path.cl && g.attr == path.leaf && allowed.contains(&class_of(code))
+                    });
+                    match hit {
+                        Some(k) => {
+                            used[k] = true;
+                            let ItemKind::Status { code, .. } = got[k].kind else { unreachable!() };
+                            let cl = class_of(code);
+                            j.rep.count(&format!("denied:write/{:?}", cl));
+                            j.outcome.insert(format!("st:{:?}", cl));
+                            if cl != *primary {
+                                j.rep.note(&format!("write-status-class-{:?}-where-rules-name-{:?}-first", cl, primary));
+                            }
+                        }
+                        None => {
+                            let st: Vec<String> = got.iter().filter(|g| g.ep == path.ep && g.cl == path.cl && g.attr == path.leaf).map(|g| format!("{:?}", g.kind)).collect();
+                            j.viol("write-status", &format!("expected-{:?}", primary), format!("write to {} must be refused with one of {:?}; statuses for the path: {:?}; {}", path.show(), allowed, st, ctx));
+                        }
+                    }
+                }
+                _ => {}
+            }
+        }
+    }
+    if !any_open {
+        for (k, g) in got.iter().enumerate() {
+            if !used[k] {
+                j.viol("write-status", "unexpected-status", format!("status {:?} not expected; {}", g, ctx));
+            }
+        }
+        let (missing, extra) = im_ref::multiset_diff(
+            &exp_calls.iter().map(|c| (c.0, c.1, c.2, c.3)).collect::<Vec<_>>(),
+            &ok_calls.iter().map(|c| (c.0, c.1, c.2, c.3)).collect::<Vec<_>>(),
+        );
+        for m in missing {
+            j.viol("effect", "permitted-write-not-applied", format!("no successful handler write of {:#x}/{:#x}/{:#x} with the requested value; {}", m.0, m.1, m.2, ctx));
+        }
+        for m in extra {
+            j.viol("effect", "write-applied-for-refused-or-absent-path", format!("handler write of {:#x}/{:#x}/{:#x} (value hash {:x}) without a corresponding permitted request item; {}", m.0, m.1, m.2, m.3, ctx));
+        }
+    }
+    (exp_calls, any_open)
+}
+
 fn step_shape(step: &Step) -> String {
     let ps = |p: &PathReq| p.shape();
     match step {
@@ -1417,11 +1960,23 @@ fn step_shape(step: &Step) -> String {
                 swap_at_chunk.is_some() as u8
             )
         }
-        Step::Write { items, timed_flag, timed_req, delay_ms, .. } => {
+        Step::Write { items, timed_flag, timed_req, delay_ms, chunks, .. } => {
             let mut s: Vec<u8> = items.iter().map(|i| ps(&i.path)).collect();
             s.sort();
             s.dedup();
-            format!("W{:?}n{}t{}{}{}", s, items.len().min(3), *timed_flag as u8, timed_req.is_some() as u8, (*delay_ms > 200) as u8)
+            // chunked: number of messages, the flag of each, where a long pause sits, list appends
+            let c = match chunks {
+                Some(p) => format!(
+                    "c{}f{:?}g{:?}r{}l{}",
+                    p.sizes.len(),
+                    p.flags.iter().map(|f| *f as u8).collect::<Vec<_>>(),
+                    p.gaps_ms.iter().skip(1).map(|g| (*g > 200) as u8).collect::<Vec<_>>(),
+                    p.continue_after_refusal as u8,
+                    items.iter().any(|i| i.path.list_index == ListIdx::Null) as u8
+                ),
+                None => String::new(),
+            };
+            format!("W{:?}n{}t{}{}{}{}", s, items.len().min(3), *timed_flag as u8, timed_req.is_some() as u8, (*delay_ms > 200) as u8, c)
         }
         Step::Invoke { items, timed_flag, timed_req, delay_ms, .. } => {
             let mut s: Vec<u8> = items.iter().map(|i| ps(&i.path)).collect();
@@ -1539,7 +2094,9 @@ pub fn run(ctx: &Ctx) -> Report {
         "C06",
         "Real InteractionModel over a probe data model generated from the seed (plus real ACL / Operational Credentials \
          clusters on endpoint 0 in a quarter of the worlds), real ACL table, 7 requester kinds over mirrored sessions; \
-         read / write / invoke with wildcard and concrete paths, timed / untimed, composition changes inside an answer. \
+         read / write / invoke with wildcard and concrete paths, timed / untimed, composition changes inside an answer; \
+         a quarter of the writes chunked (2..4 WriteRequest messages on one exchange, each with its own TimedRequest flag, \
+         pauses that may outlast the timed window, lists replaced and then appended to across messages). \
          One evaluation = one request. distinct = hash(request shape class, requester kind, node shape class, outcome classes).",
     );
     crate::util::quiet_panics();
@@ -1570,9 +2127,23 @@ pub fn run(ctx: &Ctx) -> Report {
         ("untimed", 200),
         ("read_with_composition_change", 20),
         ("fabric_sensitive_foreign_entries", 10),
-        ("denied:invoke/fabric-scoped-command-for-fabric-less-requester", 5),
+        ("denied:invoke/fabric-scoped-command-for-fabric-less-requester", 1),
         ("granted:timed-only-element-acted-inside-live-window", 5),
         ("driven-via-public-im-client", 100),
+        ("chunked_writes", 100),
+        ("chunked_write_messages", 250),
+        ("chunked_write_all_messages_acknowledged", 30),
+        ("granted:chunked-write", 30),
+        ("chunked_write_later_chunk_timed_flag_deviates", 20),
+        ("chunked_write_without_timed_request_but_flag_set", 12),
+        ("chunked_write_flag_clear_in_later_chunk_of_timed_interaction", 5),
+        ("chunked_write_window_expired_between_chunks", 8),
+        ("chunked_write_refused_later_chunk_holds_permitted_item", 10),
+        ("chunked_write_refused_later_chunk_holds_permitted_timed_only_item", 4),
+        ("denied:chunked-write/later-message/TimedMismatch", 20),
+        ("denied:chunked-write/later-message/Timeout", 8),
+        ("chunked_write_messages_sent_after_refusal", 5),
+        ("chunked_list_write_replace_then_append", 4),
     ] {
         rep.floor(k, v);
     }
